@@ -4,6 +4,7 @@ import (
 	"go/ast"
 	"go/types"
 	"sort"
+	"strings"
 
 	"golang.org/x/tools/go/cfg"
 
@@ -182,19 +183,8 @@ func c15fanOutSite(e *c15env, site c15site) {
 			return true
 		})
 	}
-	// message QoS: the byte parameter of publish
-	qi := -1
-	if sig := e.sig(e.publish); sig != nil {
-		for i := 0; i < sig.Params().Len(); i++ {
-			if types.Identical(sig.Params().At(i).Type().Underlying(), types.Typ[types.Uint8]) {
-				if qi >= 0 {
-					qi = -2
-					break
-				}
-				qi = i
-			}
-		}
-	}
+	// message QoS: the byte argument of publish, or the byte field of a struct argument (a parameter
+	// object carrying topic, payload and QoS) — then also the value that field was given
 	stableTerm := func(x ast.Expr) bool {
 		for {
 			switch t := ast.Unparen(x).(type) {
@@ -207,36 +197,180 @@ func c15fanOutSite(e *c15env, site c15site) {
 			}
 		}
 	}
-	if qi >= 0 && qi < len(pub.Args) && stableTerm(pub.Args[qi]) {
-		arg := ast.Unparen(pub.Args[qi])
-		Q[site.fn.Render(arg)] = true
-		// upwards along the chain: a parameter of a helper is the argument at its call site
-		for i := 0; i < k; i++ {
-			id, ok := arg.(*ast.Ident)
-			if !ok {
-				break
-			}
-			o, ok := c15objOf(chain[i].fn, id).(*types.Var)
-			if !ok {
-				break
-			}
-			pi, isRecv, isPar := e.paramIndex(o)
-			up := chain[i+1].at
-			if !isPar || isRecv || pi >= len(up.Args) || !stableTerm(up.Args[pi]) {
-				break
-			}
-			arg = ast.Unparen(up.Args[pi])
-			Q[chain[i+1].fn.Render(arg)] = true
+	isByte := func(t types.Type) bool { return t != nil && types.Identical(t.Underlying(), types.Typ[types.Uint8]) }
+	looksQoS := func(name string) bool { return strings.Contains(strings.ToLower(name), "qos") }
+	type qterm struct {
+		frame  int      // index into chain: the function x belongs to
+		x      ast.Expr // ident / selector chain
+		suffix string   // field path appended to the rendering of x
+		name   string   // parameter / field name (to decide between several byte values)
+	}
+	var qts []qterm
+	psig := e.sig(e.publish)
+	pargs := c15args(site.fn, pub)
+	for ai, a := range pargs {
+		tv, ok := site.fn.Info.Types[a]
+		if !ok || tv.Type == nil || !stableTerm(a) {
+			continue
 		}
+		pname := ""
+		if psig != nil && ai < psig.Params().Len() {
+			pname = psig.Params().At(ai).Name()
+		}
+		if isByte(tv.Type) {
+			if sel, ok := ast.Unparen(a).(*ast.SelectorExpr); ok {
+				pname = sel.Sel.Name
+			}
+			qts = append(qts, qterm{x: ast.Unparen(a), name: pname})
+			continue
+		}
+		if !e.transient(tv.Type) {
+			continue
+		}
+		st := c15deref(tv.Type).Underlying().(*types.Struct)
+		for fi := 0; fi < st.NumFields(); fi++ {
+			if fld := st.Field(fi); isByte(fld.Type()) {
+				qts = append(qts, qterm{x: ast.Unparen(a), suffix: "." + fld.Name(), name: fld.Name()})
+			}
+		}
+	}
+	// several byte values travel to publish: the one called qos
+	names := map[string]bool{}
+	for _, q := range qts {
+		names[q.name] = true
+	}
+	if len(names) > 1 {
+		var keep []qterm
+		names = map[string]bool{}
+		for _, q := range qts {
+			if looksQoS(q.name) {
+				keep = append(keep, q)
+				names[q.name] = true
+			}
+		}
+		qts = keep
+		if len(names) > 1 {
+			qts = nil
+		}
+	}
+	// follow each term: up the chain (a parameter / receiver of a helper is the operand at its call
+	// site) and into the struct value it is a field of (the value the field was given where the struct
+	// was built, or assigned later)
+	for n := 0; n < len(qts) && n < 32; n++ {
+		q := qts[n]
+		g := chain[q.frame].fn
+		Q[g.Render(q.x)+q.suffix] = true
+		root := c15rootIdent(q.x)
+		if root == nil {
+			continue
+		}
+		o, ok := c15objOf(g, root).(*types.Var)
+		if !ok {
+			continue
+		}
+		if pi, isRecv, isPar := e.paramIndex(o); isPar {
+			if q.frame+1 > k {
+				continue
+			}
+			upf, upc := chain[q.frame+1].fn, chain[q.frame+1].at
+			var arg ast.Expr
+			if isRecv {
+				_, arg = c15callee(upf, upc)
+			} else if up := c15args(upf, upc); pi < len(up) {
+				arg = up[pi]
+			}
+			if arg == nil || !stableTerm(arg) {
+				continue
+			}
+			// p.a.b with p bound to arg: arg.a.b
+			rest := strings.TrimPrefix(g.Render(q.x), g.Render(root))
+			qts = append(qts, qterm{frame: q.frame + 1, x: ast.Unparen(arg), suffix: rest + q.suffix, name: q.name})
+			continue
+		}
+		// holder.f with holder a local struct value
+		var fname string
+		switch x := q.x.(type) {
+		case *ast.Ident:
+			if strings.Count(q.suffix, ".") != 1 {
+				continue
+			}
+			fname = q.suffix[1:]
+		case *ast.SelectorExpr:
+			if q.suffix != "" || ast.Unparen(x.X) != ast.Expr(root) {
+				continue
+			}
+			fname = x.Sel.Name
+		}
+		if !e.transient(o.Type()) {
+			continue
+		}
+		var fld *types.Var
+		st := c15deref(o.Type()).Underlying().(*types.Struct)
+		for fi := 0; fi < st.NumFields(); fi++ {
+			if st.Field(fi).Name() == fname {
+				fld = st.Field(fi)
+			}
+		}
+		if fld == nil {
+			continue
+		}
+		if defs := c15defs(g, o); len(defs) == 1 && defs[0].rhs != nil && defs[0].idx < 0 {
+			if lit := litOf(defs[0].rhs); lit != nil {
+				if val := c15litField(g, lit, fld); val != nil && stableTerm(val) {
+					qts = append(qts, qterm{frame: q.frame, x: ast.Unparen(val), name: q.name})
+				}
+			}
+		}
+		ast.Inspect(g.Body, func(nd ast.Node) bool {
+			if as, ok := nd.(*ast.AssignStmt); ok && len(as.Lhs) == len(as.Rhs) {
+				for i, l := range as.Lhs {
+					ls, ok := ast.Unparen(l).(*ast.SelectorExpr)
+					if !ok || !e.selects(ls, fld) {
+						continue
+					}
+					if id, ok := ast.Unparen(ls.X).(*ast.Ident); ok && c15objOf(g, id) == o && stableTerm(as.Rhs[i]) {
+						qts = append(qts, qterm{frame: q.frame, x: ast.Unparen(as.Rhs[i]), name: q.name})
+					}
+				}
+			}
+			return true
+		})
 	}
 	if len(S) == 0 || len(Q) == 0 {
 		c.Undecide("R-C15-2", cons+"|qos comparison", pos(c, loop), "cannot identify subscription QoS (range value) or message QoS (publish argument)")
 		return
 	}
-	// downwards: a term passed as an argument is also known under the parameter's name
+	// downwards: a term passed as an argument is also known under the parameter's name; a term stored in
+	// a field of a local struct value (sub := subscription{id, subQoS}) is also known as that field
 	for round := 0; round < 4; round++ {
 		for _, p := range pieces {
 			ast.Inspect(p.body, func(n ast.Node) bool {
+				if as, ok := n.(*ast.AssignStmt); ok && len(as.Lhs) == len(as.Rhs) {
+					for i, r := range as.Rhs {
+						lit := litOf(r)
+						id, isID := as.Lhs[i].(*ast.Ident)
+						if lit == nil || !isID || id.Name == "_" {
+							continue
+						}
+						tv, ok := p.fn.Info.Types[lit]
+						if !ok || !e.transient(tv.Type) {
+							continue
+						}
+						st := c15deref(tv.Type).Underlying().(*types.Struct)
+						for fi := 0; fi < st.NumFields(); fi++ {
+							val := c15litField(p.fn, lit, st.Field(fi))
+							if val == nil || !stableTerm(val) {
+								continue
+							}
+							r := p.fn.Render(ast.Unparen(val))
+							for _, set := range []map[string]bool{S, Q} {
+								if set[r] {
+									set[p.fn.Render(id)+"."+st.Field(fi).Name()] = true
+								}
+							}
+						}
+					}
+				}
 				call, ok := n.(*ast.CallExpr)
 				if !ok {
 					return true
@@ -246,20 +380,32 @@ func c15fanOutSite(e *c15env, site c15site) {
 				if h == nil {
 					return true
 				}
-				for i, a := range call.Args {
+				operands := append([]ast.Expr(nil), c15args(p.fn, call)...)
+				if _, recv := c15callee(p.fn, call); recv != nil {
+					operands = append(operands, recv) // last: the receiver
+				}
+				for i, a := range operands {
 					if !stableTerm(a) {
 						continue
 					}
 					r := p.fn.Render(ast.Unparen(a))
 					pid := e.paramIdent(h, i)
+					if i == len(operands)-1 && len(operands) > len(c15args(p.fn, call)) {
+						pid = nil
+						if fd, ok := h.Node.(*ast.FuncDecl); ok && fd.Recv != nil && len(fd.Recv.List) == 1 && len(fd.Recv.List[0].Names) == 1 {
+							pid = fd.Recv.List[0].Names[0]
+						}
+					}
 					if pid == nil {
 						continue
 					}
-					if S[r] {
-						S[h.Render(pid)] = true
-					}
-					if Q[r] {
-						Q[h.Render(pid)] = true
+					pr := h.Render(pid)
+					for _, set := range []map[string]bool{S, Q} {
+						for t := range set {
+							if t == r || strings.HasPrefix(t, r+".") {
+								set[pr+t[len(r):]] = true
+							}
+						}
 					}
 				}
 				return true
